@@ -46,6 +46,7 @@ def ops_for(cfg):
     O['close'] = ('close', None)
     O['NEWLOOP'] = ('newloop', None)
     O['NEWLOOP-OPEN'] = ('newloop-open', None)
+    O['KA-TOGGLE'] = ('ka-toggle', None)       # Inverter.set_keep_alive(not current) between two requests
     O['idle'] = ('idle', 2 * cfg['T'])
     return O
 
@@ -90,6 +91,9 @@ def run_history(cfg, hist, final=True):
         elif a == 'newloop-open':
             s.newloop_open()
             last_ok_fd = None
+        elif a == 'ka-toggle':
+            s.p.keep_alive = not s.p.keep_alive
+            last_ok_fd = None
         elif a == 'idle':
             s.idle(b)
             if n_open(s) > 1:
@@ -102,12 +106,12 @@ def run_history(cfg, hist, final=True):
                 pass  # a transmission always goes through exactly one open transport (informational)
             if n_open(s) > 1:
                 vio.append(('at-most-one', f'{n_open(s)} open after request {name}'))
-            if not cfg['ka'] and n_open(s) != 0:
+            if not s.p.keep_alive and n_open(s) != 0:
                 vio.append(('keepalive-off:closed-after-request', f'{n_open(s)} open after request {name} ({obs.result[0]})'))
             if last_ok_fd is not None and any(e[0] == 'rx' and e[1] == last_ok_fd and e[3] in ('err', 'eof')
                                               for e in s.kern.log[log_mark:]):
                 last_ok_fd = None
-            if cfg['ka'] and obs.result[0] == 'ok' and name == 'ok' and obs.txs:
+            if s.p.keep_alive and obs.result[0] == 'ok' and name == 'ok' and obs.txs:
                 fd = obs.txs[-1][1]
                 if last_ok_fd is not None and fd != last_ok_fd:
                     vio.append(('keepalive-on:transport-reused', f'socket {fd} after {last_ok_fd}'))
@@ -129,7 +133,7 @@ def run_history(cfg, hist, final=True):
             vio.append(('next-request-works', f'{obs.result[:2]} with {len(obs.txs)} transmissions'))
         if any(w[1] > 1 for w in s.peer.watch) or n_open(s) > 1:
             vio.append(('at-most-one', 'during the final healthy request'))
-        if not cfg['ka'] and n_open(s) != 0:
+        if not s.p.keep_alive and n_open(s) != 0:
             vio.append(('keepalive-off:closed-after-request', 'after the final healthy request'))
         s.close()
         s.service_parked()
